@@ -4,8 +4,14 @@ mod c02;
 mod c04;
 mod c05;
 mod c06;
+mod c09;
+mod c10;
 mod c11;
 mod c15;
+mod cchecks;
+mod client;
+mod model;
+mod pt;
 mod conn;
 mod exchange;
 mod exec;
@@ -62,6 +68,12 @@ fn main() {
                 "C04" => drive(&c04::C04, tier),
                 "C05" => drive(&c05::C05, tier),
                 "C06" => drive(&c06::C06, tier),
+                "C07" | "C08" | "C18" | "C19" | "C20" => {
+                    let id: &'static str = Box::leak(id.clone().into_boxed_str());
+                    drive(&cchecks::ClientCheck { id }, tier)
+                }
+                "C09" => drive(&c09::C09, tier),
+                "C10" => drive(&c10::C10, tier),
                 "C11" => {
                     framework::silence_library_stdout();
                     drive(&c11::C11, tier)
@@ -89,6 +101,12 @@ fn main() {
                 "C04" => replay(&c04::C04, &doc),
                 "C05" => replay(&c05::C05, &doc),
                 "C06" => replay(&c06::C06, &doc),
+                id @ ("C07" | "C08" | "C18" | "C19" | "C20") => {
+                    let id: &'static str = Box::leak(id.to_string().into_boxed_str());
+                    replay(&cchecks::ClientCheck { id }, &doc)
+                }
+                "C09" => replay(&c09::C09, &doc),
+                "C10" => replay(&c10::C10, &doc),
                 "C11" => {
                     framework::silence_library_stdout();
                     replay(&c11::C11, &doc)
